@@ -101,6 +101,20 @@ type BadRec2 struct {
 	Dup2 int      `plenc:"2"`
 }
 
+// embedded (anonymous) fields: an exported embedded type is an ordinary field named
+// after its type; an unexported embedded type is skipped like any unexported field
+type embHidden struct {
+	H int `plenc:"1"`
+}
+
+type Emb struct {
+	Inner2 `plenc:"1"`
+	*Inner `plenc:"2"`
+	embHidden
+	X     int `plenc:"3"`
+	MyStr `plenc:"4,intern"`
+}
+
 // same codec used by several goroutines at once (decode scratch state)
 type ProtoMapHolder struct {
 	A int             `plenc:"1"`
@@ -148,7 +162,7 @@ func regStatic(v interface{}) {
 func init() {
 	for _, v := range []interface{}{MyI16(0), MyI32(0), MyI64(0), MyU8(0), MyU32(0), MyUint(0), MyInt(0), MyInt8(0), MyU16(0), MyU64(0), MyStr(""), MyBool(false),
 		MyF64(0), MyF32(0), MyBytes(nil), MyTime{}, MyStrs(nil), MyInts(nil), MyMap(nil),
-		Rec{}, MutA{}, MutB{}, RecMap{}, Inner{}, Outer{}, Inner2{}, BadRec{}, GoodViaBad{}, BadHolder{}, BadRec2{}, ProtoMapHolder{}, PSelf(nil), SSelf(nil), MSelf(nil), PSelfA(nil), PSelfB(nil), SSelfHolder{}, BadKindRec{}, GoodViaBadKind{}, BadKindHolder{}, PoolMaps{}} {
+		Rec{}, MutA{}, MutB{}, RecMap{}, Inner{}, Outer{}, Inner2{}, BadRec{}, GoodViaBad{}, BadHolder{}, BadRec2{}, ProtoMapHolder{}, PSelf(nil), SSelf(nil), MSelf(nil), PSelfA(nil), PSelfB(nil), SSelfHolder{}, BadKindRec{}, GoodViaBadKind{}, BadKindHolder{}, PoolMaps{}, Emb{}} {
 		regStatic(v)
 	}
 }
